@@ -12,6 +12,7 @@ import (
 	"math/big"
 	"sort"
 	"sync"
+	"sync/atomic"
 
 	vmcommon "github.com/ElrondNetwork/elrond-vm-common"
 	"github.com/ElrondNetwork/elrond-vm-common/builtInFunctions"
@@ -75,6 +76,19 @@ type World struct {
 	DNS     map[string]struct{}
 	Cfg     Config
 
+	TimestampOf func(e uint32, n int) uint64
+
+	// AliasStorage: the data trie keeps the very slice it is given by SaveKeyValue and hands out the
+	// very slice it holds from RetrieveValue (what the node's trackable data trie does with its
+	// dirty entries) instead of copying both ways. Every third world of a process.
+	AliasStorage bool
+
+	// MergeDecode: the marshaller decodes INTO the object it is given without clearing it first
+	// (protobuf merge semantics, also what the JSON marshaller of the node and of the repository's
+	// own mock does). Both behaviours implement the Marshalizer interface; every third world of a
+	// process uses this one, so code that starts to reuse a decode target is observable.
+	MergeDecode bool
+
 	// configuration history, replayed by Clone so that a clone is "equal configuration"
 	SchedHist [](map[string]map[string]uint64)
 	EpochHist []uint32
@@ -91,6 +105,9 @@ type Config struct {
 	// NotifyOnRegister: the epoch notifier calls EpochConfirmed(current epoch) synchronously when a
 	// handler registers, as the node's generic epoch notifier does (nil = it only records).
 	NotifyOnRegister *uint32
+	// PreCreate: schedule changes the factory receives after its construction and BEFORE it creates
+	// the container (a gas-schedule notifier that replays the latest schedule on registration).
+	PreCreate []map[string]map[string]uint64
 	// CodecWrap lets a check interpose on the marshaller (fault injection uses the choke point instead).
 }
 
@@ -171,6 +188,8 @@ func CloneGasMap(m map[string]map[string]uint64) map[string]map[string]uint64 {
 // ---------------------------------------------------------------------------------------------
 // Construction
 
+var worldSeq uint64
+
 func New(cfg Config) (*World, error) {
 	if cfg.NumShards == 0 {
 		cfg.NumShards = 1
@@ -179,6 +198,9 @@ func New(cfg Config) (*World, error) {
 		cfg.GasMap = DefaultGasMap()
 	}
 	w := &World{NumShards: cfg.NumShards, Payable: map[string]int{}, DNS: map[string]struct{}{}, Cfg: cfg}
+	seq := atomic.AddUint64(&worldSeq, 1)
+	w.MergeDecode = seq%3 == 0
+	w.AliasStorage = seq%3 == 1
 	for _, d := range cfg.DNS {
 		w.DNS[string(d)] = struct{}{}
 	}
@@ -215,11 +237,14 @@ func (sh *Shard) build() error {
 	if err != nil {
 		return err
 	}
+	for _, m := range w.Cfg.PreCreate {
+		f.GasScheduleChange(CloneGasMap(m))
+	}
 	c, err := f.CreateBuiltInFunctionContainer()
 	if err != nil {
 		return err
 	}
-	if err = builtInFunctions.SetPayableHandler(c, &PayableOracle{w: w}); err != nil {
+	if err = builtInFunctions.SetPayableHandler(c, &PayableOracle{W: w}); err != nil {
 		return err
 	}
 	sh.Container = c
@@ -230,11 +255,22 @@ func (sh *Shard) build() error {
 // ConfirmEpoch delivers an epoch notification to every subscriber of every shard.
 func (w *World) ConfirmEpoch(e uint32) {
 	w.EpochHist = append(w.EpochHist, e)
+	ts := w.timestamp(e)
 	for _, sh := range w.Shards {
 		for _, s := range sh.Subs {
-			s.EpochConfirmed(e, 0)
+			s.EpochConfirmed(e, ts)
 		}
 	}
+}
+
+// timestamp: what the notifier passes along with an epoch. By default the epoch's start time (so a
+// regression to an earlier epoch carries an earlier timestamp); TimestampOf overrides it (n = how
+// many notifications were delivered before).
+func (w *World) timestamp(e uint32) uint64 {
+	if w.TimestampOf != nil {
+		return w.TimestampOf(e, len(w.EpochHist)-1)
+	}
+	return 1600000000 + uint64(e)*14400
 }
 
 // GasScheduleChange applies a schedule through the real factory on every shard.
@@ -354,7 +390,9 @@ func (c *Codec) Unmarshal(obj interface{}, buff []byte) error {
 	if !ok {
 		return ErrNotProto
 	}
-	m.Reset()
+	if !c.w.MergeDecode {
+		m.Reset()
+	}
 	return m.Unmarshal(buff)
 }
 func (c *Codec) IsInterfaceNil() bool { return c == nil }
@@ -382,7 +420,7 @@ func (PlainCodec) IsInterfaceNil() bool { return false }
 // ---------------------------------------------------------------------------------------------
 // Payability oracle
 
-type PayableOracle struct{ w *World }
+type PayableOracle struct{ W *World }
 
 var ErrPayableOracle = errors.New("verif: payability oracle error")
 
@@ -409,10 +447,10 @@ func (w *World) PayAnswer(addr []byte) int {
 }
 
 func (p *PayableOracle) IsPayable(address []byte) (bool, error) {
-	if err := p.w.dep(KIsPayable, address, nil); err != nil {
+	if err := p.W.dep(KIsPayable, address, nil); err != nil {
 		return false, err
 	}
-	switch p.w.PayAnswer(address) {
+	switch p.W.PayAnswer(address) {
 	case PayYes:
 		return true, nil
 	case PayNo:
@@ -431,7 +469,7 @@ type Notifier struct{ sh *Shard }
 func (n *Notifier) RegisterNotifyHandler(h vmcommon.EpochSubscriberHandler) {
 	n.sh.Subs = append(n.sh.Subs, h)
 	if e := n.sh.W.Cfg.NotifyOnRegister; e != nil {
-		h.EpochConfirmed(*e, 0)
+		h.EpochConfirmed(*e, n.sh.W.timestamp(*e))
 	}
 }
 func (n *Notifier) IsInterfaceNil() bool { return n == nil }
@@ -608,6 +646,9 @@ func (a *Account) RetrieveValue(key []byte) ([]byte, error) {
 	if !ok {
 		return nil, nil
 	}
+	if a.sh.W.AliasStorage {
+		return v, nil
+	}
 	c := make([]byte, len(v))
 	copy(c, v)
 	return c, nil
@@ -622,6 +663,10 @@ func (a *Account) SaveKeyValue(key []byte, value []byte) error {
 	a.modSeq++
 	if len(value) == 0 {
 		delete(a.Storage, string(key))
+		return nil
+	}
+	if a.sh.W.AliasStorage {
+		a.Storage[string(key)] = value
 		return nil
 	}
 	c := make([]byte, len(value))
@@ -645,7 +690,11 @@ func (a *Account) clone(sh *Shard) *Account {
 	c := &Account{sh: sh, Addr: a.Addr, Storage: make(map[string][]byte, len(a.Storage)), Balance: new(big.Int).Set(a.Balance),
 		Owner: a.Owner, UserName: a.UserName, DevReward: new(big.Int).Set(a.DevReward), CodeMeta: a.CodeMeta, Nonce: a.Nonce, modSeq: a.modSeq}
 	for k, v := range a.Storage {
-		c.Storage[k] = v // values are never mutated in place (copied on write and on read)
+		if a.sh != nil && a.sh.W.AliasStorage {
+			c.Storage[k] = append([]byte{}, v...) // the library holds references into live values
+		} else {
+			c.Storage[k] = v // values are never mutated in place (copied on write and on read)
+		}
 	}
 	return c
 }
@@ -653,7 +702,11 @@ func (a *Account) clone(sh *Shard) *Account {
 func (a *Account) restoreFrom(c *Account) {
 	a.Storage = make(map[string][]byte, len(c.Storage))
 	for k, v := range c.Storage {
-		a.Storage[k] = v
+		if a.sh != nil && a.sh.W.AliasStorage {
+			a.Storage[k] = append([]byte{}, v...)
+		} else {
+			a.Storage[k] = v
+		}
 	}
 	a.Balance = new(big.Int).Set(c.Balance)
 	a.Owner, a.UserName, a.CodeMeta, a.Nonce = c.Owner, c.UserName, c.CodeMeta, c.Nonce
@@ -865,6 +918,9 @@ func (w *World) Clone() (*World, error) {
 	if err != nil {
 		return nil, err
 	}
+	c.MergeDecode = w.MergeDecode
+	c.AliasStorage = w.AliasStorage
+	c.TimestampOf = w.TimestampOf
 	for k, v := range w.Payable {
 		c.Payable[k] = v
 	}
